@@ -53,6 +53,13 @@ def showOut (o : BuiltOutput) : String :=
     | some sc => toString sc.kind ++ "." ++ showBytes sc.body.bytes
   showBytes o.addr ++ "/" ++ toString o.coin ++ "/" ++ showAssets (fun (q : Nat) => toString q) o.assets ++ "/" ++ d ++ "/" ++ s
 
+/-- the hash value is printed when it does not depend on a `HashMap` iteration order (at most one
+    redeemer and one witness datum), otherwise only its presence -/
+def showSdh (t : BuiltTx) : String :=
+  match t.scriptDataHash with
+  | none => "0"
+  | some h => if t.redeemers.length ≤ 1 && t.datums.length ≤ 1 then showBytes h else "1"
+
 def showTx (t : BuiltTx) : String :=
   let l (xs : List Inp) := Tok.showList showInp xs
   let sc := sortStrings (t.scripts.map (fun e => toString e.1 ++ ":" ++ showBytes e.2))
@@ -64,7 +71,7 @@ def showTx (t : BuiltTx) : String :=
   " mint=" ++ showAssets (fun (q : Int) => toString q) t.mint ++ " coll=" ++ l t.collateral ++
   " sig=" ++ Tok.showList (showHash 28) t.signers ++ " net=" ++ showOptNat t.networkId ++
   " cr=" ++ (match t.collateralReturn with | none => "none" | some o => showOut o) ++
-  " ref=" ++ l t.refInputs ++ " sdh=" ++ (if t.scriptDataHash then "1" else "0") ++
+  " ref=" ++ l t.refInputs ++ " sdh=" ++ showSdh t ++
   " adh=" ++ (if t.auxDataHash then "1" else "0") ++
   " sc=" ++ Tok.showList id sc ++ " pd=" ++ Tok.showList id pd ++ " rd=" ++ Tok.showList id rd ++
   " aux=" ++ (match t.aux with | none => "none" | some b => showBytes b) ++ " id=1"
